@@ -184,7 +184,7 @@ def execute(case, scratch):
         W.cleanup(top)
 
 
-TIERS = {"quick": {"runs": 3000, "wall_cap": 420}, "thorough": {"runs": 80000, "wall_cap": 3000}}
+TIERS = {"quick": {"runs": 5000, "wall_cap": 420}, "thorough": {"runs": 120000, "wall_cap": 3000}}
 RULE = ("one run = one generated world whose database entries spell file / directory / -I / -isystem as absolute, "
         "root-relative, build-directory-relative (build directory inside or outside the root, absolute or relative), with "
         "./ and d/../d segments, as command string or arguments array, with 0..3 faulty entries (absent file, non-source "
